@@ -109,8 +109,13 @@ func (p *Pipeline) ViewOf(ns string, hostnames map[string]bool) NsView {
 			continue
 		}
 		sv := b.Server
-		s := fmt.Sprintf("backend %s secure=%v crt=%s/%s ca=%s/%s crl=%s/%s eps=%d", b.ID, sv.Secure,
-			p.Canon(sv.CrtFilename), p.Canon(sv.CrtHash), p.Canon(sv.CAFilename), p.Canon(sv.CAHash), p.Canon(sv.CRLFilename), p.Canon(sv.CRLHash), len(b.Endpoints))
+		var eps []string
+		for _, ep := range b.Endpoints {
+			eps = append(eps, fmt.Sprintf("%s:%d", ep.IP, ep.Port))
+		}
+		sort.Strings(eps)
+		s := fmt.Sprintf("backend %s tcp=%v secure=%v crt=%s/%s ca=%s/%s crl=%s/%s eps=%v", b.ID, b.ModeTCP, sv.Secure,
+			p.Canon(sv.CrtFilename), p.Canon(sv.CrtHash), p.Canon(sv.CAFilename), p.Canon(sv.CAHash), p.Canon(sv.CRLFilename), p.Canon(sv.CRLHash), eps)
 		var ps []string
 		for _, bp := range b.Paths {
 			x := fmt.Sprintf(" path %s", bp.Link.Key())
@@ -122,6 +127,17 @@ func (p *Pipeline) ViewOf(ns string, hostnames map[string]bool) NsView {
 		}
 		sort.Strings(ps)
 		v.Backends = append(v.Backends, s+strings.Join(ps, ""))
+	}
+	// TCP services that point to a backend of the namespace
+	for port, tp := range p.HAProxy.TCPServices().Items() {
+		if dh := tp.DefaultHost(); dh != nil && !dh.Backend.IsEmpty() && dh.Backend.Namespace == ns {
+			v.Hosts = append(v.Hosts, fmt.Sprintf("tcp %d->%s", port, dh.Backend.String()))
+		}
+		for _, h := range tp.Hosts() {
+			if !h.Backend.IsEmpty() && h.Backend.Namespace == ns {
+				v.Hosts = append(v.Hosts, fmt.Sprintf("tcp %d host->%s", port, h.Backend.String()))
+			}
+		}
 	}
 	sort.Strings(v.Hosts)
 	sort.Strings(v.Backends)
